@@ -61,6 +61,14 @@ type Ctx struct {
 	Notes []string
 	// Tainted is set by an engine that knows goroutines were left behind (a detected hang): the worker process exits after this run.
 	Tainted bool
+	// Bail, when set by the worker, records this run's outcome and leaves the process at once: for engines whose
+	// failed runs leave goroutines that never finish (the fake clock of a bubble with pending timers never deadlocks,
+	// so such a bubble could not be left in any other way).
+	Bail func()
+	// Known is the set of "class|signature" of recorded findings; KnownHits collects those an engine chose to
+	// record without ending the run (see KnownHit).
+	Known     map[string]bool
+	KnownHits []Violation
 }
 
 // NewCtx creates a run context.
@@ -127,6 +135,24 @@ func (c *Ctx) Violate(class, signature, format string, a ...interface{}) bool {
 			Detail: fmt.Sprintf(format, a...), Step: c.Step}
 		c.Logf("VIOLATION class=%s sig=%s", class, signature)
 	}
+	return true
+}
+
+// KnownHit reports whether class/signature is a recorded finding and, if so, records that it was observed
+// without ending the run.  For engines in which a recorded finding (e.g. a data-race report) leaves the
+// run in a state that can still be judged, so that it does not hide a different violation of the same run.
+func (c *Ctx) KnownHit(class, signature, format string, a ...interface{}) bool {
+	if !c.Known[class+"|"+signature] {
+		return false
+	}
+	for _, k := range c.KnownHits {
+		if k.Class == class && k.Signature == signature {
+			return true
+		}
+	}
+	c.KnownHits = append(c.KnownHits, Violation{Property: c.Property, Class: class, Signature: signature,
+		Detail: fmt.Sprintf(format, a...), Step: c.Step})
+	c.Logf("KNOWN-FINDING class=%s sig=%s", class, signature)
 	return true
 }
 
